@@ -814,6 +814,10 @@ func main() {
 		interleavedUploads(run, i)
 	}
 	run.FloorCounter("interleaved_uploads_committed", 300)
+	for i, n := 0, run.N(200, 4000); i < n; i++ {
+		streamedWriter(run, i)
+	}
+	run.FloorCounter("streamed_writer_committed", 150)
 	for i := 0; i < 16; i++ {
 		unifyDivergedSession(run, i)
 	}
